@@ -205,6 +205,56 @@ pub fn run_session(cmds: &[Cmd], opts: &RunOpts) -> Outcome {
     o
 }
 
+/// Feed raw bytes (no handshake added), close stdin, and report (stdout, exit code, timed out)
+pub fn run_raw(bin: &str, input: &[u8], timeout: Duration) -> (String, Option<i32>, bool) {
+    let dir = scratch_dir();
+    let mut child = match Command::new(bin).current_dir(&dir).stdin(Stdio::piped()).stdout(Stdio::piped()).stderr(Stdio::null()).spawn() {
+        Ok(c) => c,
+        Err(e) => crate::report::machinery_error(&format!("cannot start {}: {}", bin, e)),
+    };
+    let mut stdin = child.stdin.take().unwrap();
+    let mut stdout = child.stdout.take().unwrap();
+    let data = input.to_vec();
+    let w = std::thread::spawn(move || {
+        let _ = stdin.write_all(&data);
+        drop(stdin);
+    });
+    let r = std::thread::spawn(move || {
+        let mut s = String::new();
+        let _ = stdout.read_to_string(&mut s);
+        s
+    });
+    let t0 = Instant::now();
+    let mut timed_out = false;
+    let code;
+    loop {
+        match child.try_wait() {
+            Ok(Some(st)) => {
+                code = st.code();
+                break;
+            }
+            Ok(None) => {
+                if t0.elapsed() > timeout {
+                    timed_out = true;
+                    HANGS.fetch_add(1, Ordering::Relaxed);
+                    let _ = child.kill();
+                    code = child.wait().ok().and_then(|s| s.code());
+                    break;
+                }
+                std::thread::sleep(Duration::from_micros(300));
+            }
+            Err(_) => {
+                code = None;
+                break;
+            }
+        }
+    }
+    let _ = w.join();
+    let out = r.join().unwrap_or_default();
+    let _ = std::fs::remove_dir_all(&dir);
+    (out, code, timed_out)
+}
+
 const HANDSHAKE_LINES: usize = 4;
 
 /// stdout after the handshake, info lines without their time field
@@ -711,6 +761,27 @@ pub fn run_c17(rep: &Report) -> i32 {
             rep.fail("C17", if eof { "end-of-input-does-not-end-the-process" } else { "quit-does-not-end-the-process" }, format!("session {:?} followed by {}: the process ({}) is still running after {} s", s.iter().map(|c| c.line.clone()).collect::<Vec<_>>(), if eof { "closing stdin" } else { "quit" }, if hooks { "hooks on" } else { "hooks off" }, opts.timeout.as_secs()), session_json(&s).set("end", J::s(if eof { "stdin closed" } else { "quit" })).set("binary", J::s(opts.bin)));
         }
     });
+    // end of input at odd places: before the handshake, in the middle of a line (no final newline), after blanks
+    let raw_cases: Vec<&[u8]> = vec![
+        b"", b"uci", b"uci\n", b"uci\nisready", b"uci\nisready\n", b"uci\n\n", b"uci\n   \n", b"uci\n\n\n\n", b"uci\nposition startpos\ngo", b"uci\nposition startpos\ngo\n", b"uci\nposition startpos\ngo wtime 300 btime 300\n",
+        b"uci\nxyzzy", b"uci\r\nisready\r\n", b"\n", b"isready\n", b"uci\nposition startpos moves e2e4\n\t",
+    ];
+    for bin in [BIN_ON, BIN_OFF] {
+        let results = run_parallel(raw_cases.len(), |i| run_raw(bin, raw_cases[i], Duration::from_secs(4)));
+        for (i, (out, code, timed_out)) in results.iter().enumerate() {
+            lifecycle_runs.fetch_add(1, Ordering::Relaxed);
+            let text = String::from_utf8_lossy(raw_cases[i]).to_string();
+            if *timed_out {
+                rep.fail("C17", "end-of-input-does-not-end-the-process", format!("input {:?} then end of input: the process ({}) is still running after 4 s", text, bin), J::obj().set("kind", J::s("c17-raw")).set("input", J::s(&text)).set("binary", J::s(bin)));
+            } else if code.is_none() || *code == Some(101) {
+                rep.fail("C17", "end-of-input-crashes-the-process", format!("input {:?} then end of input: exit status {:?}", text, code), J::obj().set("kind", J::s("c17-raw")).set("input", J::s(&text)).set("binary", J::s(bin)));
+            }
+            let readys = text.matches("isready").count();
+            if text.starts_with("uci") && text.contains("uci\n") && out.matches("readyok").count() != readys {
+                rep.fail("C17", "isready-not-answered", format!("input {:?}: {} readyok for {} isready", text, out.matches("readyok").count(), readys), J::obj().set("kind", J::s("c17-raw")).set("input", J::s(&text)).set("binary", J::s(bin)));
+            }
+        }
+    }
     rep.add("sessions_with_a_garbage_line", garbage_runs.load(Ordering::Relaxed));
     rep.add("isready_answered_with_readyok", readyoks.load(Ordering::Relaxed));
     rep.add("lifecycle_runs_quit_or_end_of_input", lifecycle_runs.load(Ordering::Relaxed));
